@@ -28,6 +28,7 @@ CharVariants ==
    fffe          |-> {"rawFFFE", "rawFFFF", "refFFFE", "refFFFF"},
    nul           |-> {"raw", "ref0"}]
 XmlEncodings == {"x-no-such-encoding", "UTF-99", "ebcdic-xx-yy", "utf 8"}
+XmlVersions == {"1.01.01.0", "2.0", "1.", "x", "1.1", "1.7", "01.0", "-1.0", "1.0.0"}      \* the version of the XML declaration (the DOM builder and the SAX parser treat it differently)
 WrongNs == {"http://www.w3.org/1999/XSL/Transform/", "http://www.w3.org/1999/XSL/transform", "http://www.w3.org/TR/WD-xsl", "urn:x",
             "http://www.w3.org/1999/XSL/Transform "}
 UnknownElem == {"top", "body", "choose", "v2instruction", "v2top", "insideValueOf"}
@@ -76,6 +77,7 @@ Cases ==
    \cup UNION {PerDoc(LAMBDA n : {Case(c, R(n), "text", n, i, 0, v) : i \in 1..M[n].starts, v \in CharVariants[c]}) : c \in DOMAIN CharVariants}
    \cup UNION {PerDoc(LAMBDA n : {Case(c, R(n), "attr", n, i, 0, v) : i \in 1..M[n].quotes, v \in CharVariants[c]}) : c \in DOMAIN CharVariants}
    \cup PerDoc(LAMBDA n : {Case("unknownXmlEncoding", R(n), "", n, 0, 0, v) : v \in XmlEncodings})
+   \cup PerDoc(LAMBDA n : {Case("xmlDeclVersion", R(n), "", n, 0, 0, v) : v \in XmlVersions})
    \cup {Case("wrongXslNamespaceRoot", "xsl", "", n, 0, 0, v) : n \in SeedsOf("xsl"), v \in WrongNs}
    \cup UNION {{Case("wrongXslNamespaceInner", "xsl", "", n, i, 0, "") : i \in 1..M[n].xslInstr} : n \in SeedsOf("xsl")}
    \cup UNION {{Case("unknownXslAttribute", "xsl", "", n, i, 0, "") : i \in 1..M[n].xslElems} : n \in SeedsOf("xsl")}
